@@ -69,6 +69,9 @@ func (p *Program) exec(s *node, fr *frame) flow {
 			v = p.initValue(s.t, s.kids[0])
 		} else {
 			v = zero(s.t) // reading it before a write is checked by the WGSL side, not here
+			if s.shared {
+				p.fillGarbage(v)
+			}
 		}
 		p.declare(s.s, v)
 		return flowNone
@@ -250,6 +253,12 @@ func (p *Program) call(e *node) *Val {
 	if f, ok := p.funcs[e.s]; ok {
 		return p.callUser(f, e.kids)
 	}
+	switch e.s {
+	case "GroupMemoryBarrierWithGroupSync", "DeviceMemoryBarrierWithGroupSync", "AllMemoryBarrierWithGroupSync", "threadgroup_barrier",
+		"barrier", "memoryBarrierShared", "memoryBarrierBuffer", "memoryBarrier", "groupMemoryBarrier", "DeviceMemoryBarrier",
+		"GroupMemoryBarrier", "AllMemoryBarrier", "simdgroup_barrier":
+		return zero(tVoid) // one invocation per workgroup: a barrier has no effect
+	}
 	as := p.evalArgs(e.kids)
 	need := func(n int) bool {
 		if len(as) != n {
@@ -374,9 +383,6 @@ func (p *Program) call(e *node) *Val {
 			}
 			return acc
 		}
-	case "GroupMemoryBarrierWithGroupSync", "DeviceMemoryBarrierWithGroupSync", "AllMemoryBarrierWithGroupSync", "threadgroup_barrier",
-		"barrier", "memoryBarrierShared", "memoryBarrierBuffer", "memoryBarrier", "groupMemoryBarrier", "DeviceMemoryBarrier":
-		return zero(tVoid) // single invocation: a barrier has no effect
 	}
 	if p.err == "" {
 		p.rtFail("the emitted text calls '" + e.s + "', which is neither defined in it nor a modelled intrinsic")
@@ -485,7 +491,17 @@ func (p *Program) Run(entry string, in []uint32) ([]uint32, string) {
 			buffer = v
 			unflatten(v, in, 0)
 		}
+		if g.class == "shared" {
+			p.fillGarbage(v)
+		}
 		p.genv[g.name] = v
+	}
+	if p.d == GLSL {
+		for _, n := range []string{"gl_LocalInvocationID", "gl_LocalInvocationIndex", "gl_WorkGroupID", "gl_GlobalInvocationID", "gl_NumWorkGroups", "gl_WorkGroupSize"} {
+			if v := p.builtin(n, nil); v != nil {
+				p.genv[n] = v
+			}
+		}
 	}
 	locals := map[string]*Val{}
 	for i, prm := range f.params {
@@ -493,6 +509,19 @@ func (p *Program) Run(entry string, in []uint32) ([]uint32, string) {
 		if f.space[i] == "device" && buffer == nil {
 			buffer = v
 			unflatten(v, in, 0)
+		}
+		if f.space[i] == "threadgroup" {
+			p.fillGarbage(v)
+		}
+		if b := p.builtin(prm.sem, prm.t); b != nil {
+			v = b
+		}
+		if prm.t.K == 'S' {
+			for k, fld := range prm.t.Fields {
+				if b := p.builtin(fld.Sem, fld.T); b != nil {
+					v.E[k] = b
+				}
+			}
 		}
 		locals[prm.s] = v
 	}
@@ -513,4 +542,43 @@ func (p *Program) Run(entry string, in []uint32) ([]uint32, string) {
 		out = append(out, c.S)
 	}
 	return out, ""
+}
+
+// fillGarbage fills workgroup storage with the stale words of a previous dispatch.
+func (p *Program) fillGarbage(v *Val) {
+	if len(p.Garbage) == 0 {
+		return
+	}
+	for _, c := range flatten(v, nil) {
+		c.S = p.Garbage[p.garbageAt%len(p.Garbage)]
+		p.garbageAt++
+	}
+}
+
+func u3(x, y, z uint32) *Val {
+	return &Val{T: vecOf(tUint, 3), E: []*Val{{T: tUint, S: x}, {T: tUint, S: y}, {T: tUint, S: z}}}
+}
+
+// builtin gives the value of an invocation builtin named by an HLSL semantic, an MSL
+// attribute or a GLSL variable, for local invocation (0,0,0) of workgroup p.WorkgroupID.
+func (p *Program) builtin(sem string, t *Type) *Val {
+	w, sz := p.WorkgroupID, p.WorkgroupSize
+	for i := range sz {
+		if sz[i] == 0 {
+			sz[i] = 1
+		}
+	}
+	switch sem {
+	case "SV_GroupThreadID", "thread_position_in_threadgroup", "gl_LocalInvocationID":
+		return u3(0, 0, 0)
+	case "SV_GroupIndex", "thread_index_in_threadgroup", "gl_LocalInvocationIndex":
+		return &Val{T: tUint}
+	case "SV_GroupID", "threadgroup_position_in_grid", "gl_WorkGroupID":
+		return u3(w[0], w[1], w[2])
+	case "SV_DispatchThreadID", "thread_position_in_grid", "gl_GlobalInvocationID":
+		return u3(w[0]*sz[0], w[1]*sz[1], w[2]*sz[2])
+	case "gl_WorkGroupSize", "threads_per_threadgroup":
+		return u3(sz[0], sz[1], sz[2])
+	}
+	return nil
 }
